@@ -9,8 +9,9 @@ chain loop (`_ProFormaParser.parse`) carries an explicit progress test; `Err.han
 consumed nothing, and `Props/C09.parseChains_never_hangs` proves that this never happens.
 
 `fixed : Bool` selects the code before (`false`) / after (`true`) the two `fix:` commits of C09
-(IndexError on a bracket group that ends the input, TypeError on a numeric global modification); everything
-else is identical. The current `/repo` is `fixed = true`.
+(IndexError on a bracket group that ends the input, TypeError on a numeric global modification), i.e. the current
+tree with commit 4c2ce90 reverted; everything else (including the later fix 0b351bb) is identical. The current `/repo`
+is `fixed = true`.
 -/
 namespace Pept
 
@@ -65,6 +66,7 @@ def parseModBody (o c : Char) (s : List Char) : Except Err (Mod × List Char) :=
     match rest with
     | '^' :: r =>
       if r.takeWhile Char.isDigit = [] then .error .value
+      else if Nat.ofDigitChars 10 (r.takeWhile Char.isDigit) 0 < 1 then .error .format   -- `^0` (fix 0b351bb)
       else .ok (⟨convertType body, Int.ofNat (Nat.ofDigitChars 10 (r.takeWhile Char.isDigit) 0)⟩,
                 r.dropWhile Char.isDigit)
     | _ => .ok (⟨convertType body, 1⟩, rest)
@@ -85,9 +87,11 @@ theorem parseModBody_length (o c : Char) (s : List Char) (m : Mod) (r : List Cha
     · rename_i r'
       split at h
       · simp at h
-      · simp only [Except.ok.injEq, Prod.mk.injEq] at h
-        have := dropWhile_length_le Char.isDigit r'
-        rw [← h.2]; simp at hl; omega
+      · split at h
+        · simp at h
+        · simp only [Except.ok.injEq, Prod.mk.injEq] at h
+          have := dropWhile_length_le Char.isDigit r'
+          rw [← h.2]; simp at hl; omega
     · simp only [Except.ok.injEq, Prod.mk.injEq] at h
       rw [← h.2]; exact hl
 
@@ -226,14 +230,18 @@ termination_by s.length
 
 /-! ### `_parse_sequence_middle` -/
 
-/-- `dummy` = the open interval `[start, None, ambiguous, None]`, if any -/
+/-- `dummy` = the open interval `[start, None, ambiguous, None]`, if any.
+Since fix 0b351bb the phase rejects (ProFormaFormatError): a bracket group before the first residue, a `-` without a
+modification, an interval that is still open when the phase ends, an empty interval. -/
 def parseMiddle (a : Annotation) (dummy : Option (Int × Bool)) (s : List Char) :
     Except Err (Annotation × List Char) :=
   match s with
-  | [] => .ok (a, [])
+  | [] => if dummy.isSome then .error .format else .ok (a, [])
   | cur :: xs =>
     if isAA cur then parseMiddle { a with seq := a.seq ++ [cur] } dummy xs
     else if hc : cur = '[' then
+      if a.seq = [] then .error .format
+      else
       match h : parseMods '[' ']' (cur :: xs) with
       | .error e => .error e
       | .ok (mods, rest) =>
@@ -241,10 +249,15 @@ def parseMiddle (a : Annotation) (dummy : Option (Int × Bool)) (s : List Char) 
           parseMods_length_lt _ _ _ _ _ (by simp [hc]) h
         parseMiddle (addInternal a mods) dummy rest
     else if cur = '-' then
+      if dummy.isSome then .error .format
+      else
       match parseMods '[' ']' xs with
       | .error e => .error e
-      | .ok (mods, rest) => .ok ({ a with cterm := addMods a.cterm mods }, rest)
-    else if cur = '/' ∨ cur = '+' then .ok (a, cur :: xs)
+      | .ok (mods, rest) =>
+        if mods = [] then .error .format
+        else .ok ({ a with cterm := addMods a.cterm mods }, rest)
+    else if cur = '/' ∨ cur = '+' then
+      if dummy.isSome then .error .format else .ok (a, cur :: xs)
     else if cur = '(' then
       match dummy with
       | some _ => .error .format
@@ -253,7 +266,8 @@ def parseMiddle (a : Annotation) (dummy : Option (Int × Bool)) (s : List Char) 
       match dummy with
       | none => .error .format
       | some (st, amb) =>
-        if hb : xs.head? = some '[' then
+        if st = Int.ofNat a.seq.length then .error .format
+        else if hb : xs.head? = some '[' then
           match h : parseMods '[' ']' xs with
           | .error e => .error e
           | .ok (mods, rest) =>
